@@ -231,3 +231,37 @@ Proof.
   intros Snd A w. assert (I : Inv c w) by (apply faults_keep_inv; assumption).
   split; [apply I|]. intro a. symmetry. apply (AI_flip _ _ _ _ _ _ (I_actor c w I a)).
 Qed.
+
+(* ------------------------------------------------------------------ crash atomicity (C03) *)
+Lemma frun_file0 c x evs : sound c -> FInv c x -> nthf (w_files (fw (frun c x evs))) 0%nat = nthf (w_files (fw x)) 0%nat.
+Proof.
+  intro Snd. revert x. induction evs as [|e l IH]; intros x Ix; [reflexivity|]. rewrite frun_cons. unfold fstep_skip.
+  destruct (fstep c x e) as [x'|] eqn:St; [|apply IH; exact Ix].
+  rewrite IH by (eapply fstep_inv; eauto).
+  destruct e as [e|a|a]; simpl in St.
+  - destruct (step c (fw x) e) as [w'|] eqn:St'; [|discriminate]. inversion St; subst x'. simpl.
+    destruct (files_zero c _ _ _ St') as [E|E]; auto.
+    pose proof (I_files c _ (FI_inv c x Ix)) as L. rewrite E in L. simpl in L. inversion L.
+  - destruct (can_write _); [|discriminate]. inversion St; reflexivity.
+  - destruct (can_rollback _); [|discriminate]. inversion St; reflexivity.
+Qed.
+
+Theorem crash_atomic c m0 kind mr r0 next evs :
+  sound c -> (forall f, In f r0 -> (f < next)%nat) ->
+  let w := fw (frun c (finit m0 kind mr r0 next) evs) in
+  m_ops (file w (w_ptr w)) = m_ops m0 ++ map snd (w_hist w)
+  /\ NoDup (map snd (w_hist w))
+  /\ forall a, (In a (map snd (w_hist w)) <-> flipped (a_pc (w_actors w a)) = true)
+            /\ (a_pc (w_actors w a) = PDone Aborted -> ~ In a (map snd (w_hist w)))
+            /\ (a_pc (w_actors w a) = PDone AbortedPost -> In a (map snd (w_hist w))).
+Proof.
+  intros S A w.
+  assert (I : Inv c w) by (apply faults_keep_inv; assumption).
+  destruct (pre_or_post c m0 kind mr r0 next evs S A) as [ND F]. fold w in ND, F.
+  split; [|split; [exact ND|]].
+  - rewrite file_nthf, (I_ptr c w I), (chain_ops _ _ _ (I_chain c w I)).
+    f_equal. unfold w. rewrite frun_file0 by (auto; apply finit_inv; exact A). reflexivity.
+  - intro a. split; [apply F|]. split.
+    + intros P In. apply F in In. rewrite P in In. discriminate.
+    + intro P. apply F. rewrite P. reflexivity.
+Qed.
